@@ -62,6 +62,7 @@ type Env struct {
 	Workers  int
 	BuildDir string
 	builds   sync.Map
+	buildMu  sync.Mutex
 	dirSeq   int64
 }
 
@@ -87,6 +88,11 @@ func (e *Env) TempDir() string {
 // Variant builds (once) another variant of the CLI.
 func (e *Env) Variant(o sut.BuildOpts) (string, error) {
 	key := fmt.Sprintf("%+v", o)
+	if v, ok := e.builds.Load(key); ok {
+		return v.(string), nil
+	}
+	e.buildMu.Lock()
+	defer e.buildMu.Unlock()
 	if v, ok := e.builds.Load(key); ok {
 		return v.(string), nil
 	}
